@@ -957,6 +957,10 @@ macro_rules! for_each_subject {
         $m!(Result<u8, String>); $m!(Result<(), i64>); $m!(Result<Vec<u16>, Option<bool>>);
         $m!(Box<u32>); $m!(Box<Vec<i8>>);
         $m!(()); $m!(std::marker::PhantomData<u8>);
+        // zero-sized element types inside every collection / wrapper
+        $m!(Vec<()>); $m!(std::collections::VecDeque<()>); $m!(std::collections::LinkedList<()>); $m!(std::collections::BinaryHeap<()>);
+        $m!(std::collections::BTreeSet<()>); $m!(std::collections::HashSet<()>); $m!(std::collections::HashMap<(), ()>); $m!(std::collections::BTreeMap<u8, ()>);
+        $m!(Vec<std::marker::PhantomData<u8>>); $m!([(); 3]); $m!(Option<()>); $m!(Box<()>); $m!(((), u8, ()));
         $m!(std::num::Wrapping<u16>); $m!(std::num::Wrapping<i64>);
         $m!((u8,)); $m!((u8, String)); $m!((i64, bool, f32)); $m!((u8, u8, u8, u8));
         $m!((u8, i8, u16, i16, u32));
